@@ -92,6 +92,9 @@ class IbanTask(T.Task):
         if self.mode == "construct":
             return I.call(IBAN, [inp["p"]], {"validate_bban": inp["validate_bban"]})
         obj = I.call(IBAN, [inp["p"]], {"allow_invalid": True})
+        if self.mode == "from-object":
+            # the text may itself be an (unvalidated) IBAN object: same outcome as for the plain text
+            return I.call(IBAN, [obj], {"validate_bban": inp["validate_bban"]})
         if self.mode == "is_valid":
             return I.getattr(obj, "is_valid")
         return I.call(I.getattr(obj, "validate"), [], {"validate_bban": inp["validate_bban"]})
@@ -156,6 +159,8 @@ class IbanTask(T.Task):
         from schwifty import IBAN
         if self.mode == "construct":
             o = T.native_obs(lambda: IBAN(inp["p"], validate_bban=inp["validate_bban"]))
+        elif self.mode == "from-object":
+            o = T.native_obs(lambda: IBAN(IBAN(inp["p"], allow_invalid=True), validate_bban=inp["validate_bban"]))
         elif self.mode == "is_valid":
             o = T.native_obs(lambda: IBAN(inp["p"], allow_invalid=True).is_valid)
         else:
